@@ -1,4 +1,5 @@
 import Slu.Model.Struct
+import SluProofs.Lemmas.SymbArrays
 import SluProofs.Lemmas.SymbPack
 import SluProofs.Lemmas.SymbContain
 import SluProofs.Lemmas.RelaxOk
@@ -1114,3 +1115,540 @@ theorem symbNaive_contains_factors_symetree_diag {K : Type} [Field K] (A : Pat) 
 example : RelaxOk 3 exS.col (relaxEndOf 3 1 (symetree 3 (atPlusA exS).col) true) := relaxOk_of_symetree_diag exS 1
 
 end Slu.Symb
+
+/-! ## Array-level routines of the symbolic factorization (Slu/Model/SymbArrays.lean; family `symbarr`)
+
+The three routines below are compared with the C code by DIRECT calls (family `symbarr`); the theorems hold for
+all array contents satisfying the explicit decidable well-formedness predicates. -/
+namespace Slu.SymbArr
+open Slu Slu.Struct
+
+/-- **dsnode_dfs.c**: the subscripts of the relaxed supernode `jcol..kcol` (first copy, `lsub[xlsub[jcol] ..)`) are
+the rows of its columns in first-seen order; no duplicates. -/
+theorem snodeDfs_nodup {jcol kcol : Nat} {asub xaB xaE : Array Nat} {marker : Array Int} {lsub xlsub xprune : Array Nat}
+    (xsup : Array Nat) (supno : Array Int) (h : SnodeWf jcol kcol asub xaB xaE marker lsub xlsub xprune) :
+    let o := snodeDfs jcol kcol asub xaB xaE xprune marker xsup supno lsub xlsub
+    let len := (markerFilter (snodeRows jcol kcol asub xaB xaE) []).length
+    (segList o.lsub (xlsub.getD jcol 0) len).Nodup := by
+  intro o len
+  have := (snodeDfs_main xsup supno h).1
+  show (segList o.lsub (xlsub.getD jcol 0) (markerFilter (snodeRows jcol kcol asub xaB xaE) []).length).Nodup
+  rw [this]; exact markerFilter_nodup _ _ List.nodup_nil
+
+/-- **dsnode_dfs.c**: the stored list is the UNION of the row sets of columns `jcol..kcol`; when the supernode has more
+than one column the second copy (`lsub[xlsub[kcol] .. xlsub[kcol+1])`, the one pruning works on) is identical to the
+first; `xlsub`/`xprune` delimit exactly these lists; `nzlmax` is respected (nothing outside is written). -/
+theorem snodeDfs_union {jcol kcol : Nat} {asub xaB xaE : Array Nat} {marker : Array Int} {lsub xlsub xprune : Array Nat}
+    (xsup : Array Nat) (supno : Array Int) (h : SnodeWf jcol kcol asub xaB xaE marker lsub xlsub xprune) :
+    let o := snodeDfs jcol kcol asub xaB xaE xprune marker xsup supno lsub xlsub
+    let first := xlsub.getD jcol 0
+    let len := (markerFilter (snodeRows jcol kcol asub xaB xaE) []).length
+    let stop := first + (if jcol < kcol then 2 else 1) * len
+    (∀ r, r ∈ segList o.lsub first len ↔ ∃ i, jcol ≤ i ∧ i ≤ kcol ∧ r ∈ colRows asub xaB xaE i) ∧
+    (jcol < kcol → segList o.lsub (first + len) len = segList o.lsub first len) ∧
+    (jcol < kcol → ∀ i, jcol < i → i ≤ kcol → o.xlsub.getD i 0 = first + len) ∧
+    o.xlsub.getD (kcol+1) 0 = stop ∧ o.xprune.getD kcol 0 = stop ∧ stop ≤ lsub.size ∧ o.lsub.size = lsub.size ∧
+    (∀ k, k < first ∨ stop ≤ k → o.lsub.getD k 0 = lsub.getD k 0) := by
+  intro o first len stop
+  obtain ⟨m1, m2, m3, m4, m5, m6, m7, _, _, _⟩ := snodeDfs_main xsup supno h
+  refine ⟨?_, fun hh => by rw [m2 hh, m1], fun _ => m7, m5, m6, h.cap, m3, m4⟩
+  intro r
+  rw [m1, markerFilter_complete]
+  simp only [List.not_mem_nil, false_or, snodeRows, List.mem_flatMap, List.mem_range'_1]
+  constructor
+  · rintro ⟨i, ⟨h1, h2⟩, h3⟩; exact ⟨i, h1, by omega, h3⟩
+  · rintro ⟨i, h1, h2, h3⟩; exact ⟨i, ⟨h1, by omega⟩, h3⟩
+
+/-- the marker array afterwards: `marker[r] = kcol` exactly on the rows of the supernode, untouched elsewhere -/
+theorem snodeDfs_marker {jcol kcol : Nat} {asub xaB xaE : Array Nat} {marker : Array Int} {lsub xlsub xprune : Array Nat}
+    (xsup : Array Nat) (supno : Array Int) (h : SnodeWf jcol kcol asub xaB xaE marker lsub xlsub xprune) :
+    let o := snodeDfs jcol kcol asub xaB xaE xprune marker xsup supno lsub xlsub
+    let U := markerFilter (snodeRows jcol kcol asub xaB xaE) []
+    (∀ r, r < marker.size → (o.marker.getD r EMPTY = (kcol : Int) ↔ r ∈ U)) ∧
+    (∀ r, r ∉ U → o.marker.getD r EMPTY = marker.getD r EMPTY) := by
+  intro o U
+  obtain ⟨_, _, _, _, _, _, _, _, m9, m10⟩ := snodeDfs_main xsup supno h
+  exact ⟨m9, m10⟩
+
+/-- a relaxed supernode of three columns (1..3) with overlapping rows, stored out of order in `asub` -/
+example : SnodeWf 1 3 #[5,2, 0,4, 2,4,1, 1,3,5] #[2,0,4,7] #[4,2,7,10] #[-1,0,-1,0,-1,-1]
+    #[9,9,9, 0,0,0,0,0, 0,0,0,0,0, 0] #[0,3,77,77,77] #[3,77,77,77] := by decide
+example : (snodeDfs 1 3 #[5,2, 0,4, 2,4,1, 1,3,5] #[2,0,4,7] #[4,2,7,10] #[3,77,77,77] #[-1,0,-1,0,-1,-1] #[0,1,77,77,77] #[0,0,-1,-1,-1]
+    #[9,9,9, 0,0,0,0,0, 0,0,0,0,0, 0] #[0,3,77,77,77]).lsub.toList = [9,9,9, 5,2,4,1,3, 5,2,4,1,3, 0] := by decide
+
+/-- **dpruneL.c, one turn of the loop over `segrep`, ANY current state**: the subscripts are permuted by ONE
+permutation `σ` that maps the segment `[xlsub[irep], xlsub[irep+1])` to itself and is the identity elsewhere (so the
+pruned segment is a permutation of the original and nothing outside it changes); when the supernode has a single
+column the values `lusup[xlusup[irep] + ·]` are permuted by THE SAME `σ` (each pair `(lsub[k], lusup[k])` is preserved),
+otherwise `lusup` is untouched. -/
+theorem pruneL_step_perm {K : Type} (z : K) (a : PruneArgs) (st : PruneSt K) (i : Nat)
+    (h : PruneWf a st.lsub.size st.lusup.size st.xprune.size (a.segrep.getD i 0)) :
+    let irep := a.segrep.getD i 0
+    let lo := a.xlsub.getD irep 0
+    let hi := a.xlsub.getD (irep+1) 0
+    let xlu := a.xlusup.getD irep 0
+    let o := pruneStep z a st i
+    o.lsub.size = st.lsub.size ∧ o.lusup.size = st.lusup.size ∧ o.xprune.size = st.xprune.size ∧
+    ∃ σ : Equiv.Perm ℕ, (∀ k, k < lo ∨ hi ≤ k → σ k = k) ∧ (∀ k, lo ≤ k → k < hi → lo ≤ σ k ∧ σ k < hi) ∧
+      (∀ k, o.lsub.getD k 0 = st.lsub.getD (σ k) 0) ∧
+      (movnumOf a irep = true → ∀ k, lo ≤ k → k < hi → o.lusup.getD (xlu + (k - lo)) z = st.lusup.getD (xlu + (σ k - lo)) z) ∧
+      (movnumOf a irep = false → o.lusup = st.lusup) ∧
+      (∀ q, q < xlu ∨ xlu + (hi - lo) ≤ q → o.lusup.getD q z = st.lusup.getD q z) := by
+  intro irep lo hi xlu o
+  show (pruneStep z a st i).lsub.size = _ ∧ (pruneStep z a st i).lusup.size = _ ∧ (pruneStep z a st i).xprune.size = _ ∧
+    ∃ σ : Equiv.Perm ℕ, _ ∧ _ ∧ (∀ k, (pruneStep z a st i).lsub.getD k 0 = _) ∧
+      (_ → ∀ k, _ → _ → (pruneStep z a st i).lusup.getD _ z = _) ∧ (_ → (pruneStep z a st i).lusup = _) ∧
+      (∀ q, _ → (pruneStep z a st i).lusup.getD q z = _)
+  rw [pruneStep_eq]
+  by_cases hp : prunes a st irep = true
+  · rw [if_pos hp]
+    obtain ⟨hok, hx, _⟩ := pruneOne_ok z a st irep h
+    obtain ⟨σ, s1, s2, s3, s4⟩ := hok.perm
+    exact ⟨hok.size_ls, hok.size_lu, hx, σ, s1, s2, s3, s4, hok.lu_same,
+      fun q hq => hok.lu_frame q (by rcases hq with hq | hq; exact Or.inl (by omega); exact Or.inr hq)⟩
+  · rw [if_neg hp]
+    exact ⟨rfl, rfl, rfl, Equiv.refl _, fun _ _ => rfl, fun k h1 h2 => ⟨h1, h2⟩, fun _ => rfl, fun _ _ _ _ => rfl, fun _ => rfl, fun _ _ => rfl⟩
+
+/-- **dpruneL.c, one turn, the cut**: when the turn partitions `irep` (`prunes`: the skip tests pass, not pruned yet,
+pivot row present), afterwards `xprune[irep] = p` with `xlsub[irep] ≤ p ≤ xlsub[irep+1]`, EVERY entry of
+`[xlsub[irep], p)` is a pivoted row and EVERY entry of `[p, xlsub[irep+1])` is not; a leading run of pivoted rows
+(the diagonal block) stays in place; no other `xprune` entry changes.  Otherwise the state is unchanged.
+The partition loop is run with fuel `hi - lo`; `pruneL_partition_terminates` shows the fuel is not what ends it. -/
+theorem pruneL_step_cut {K : Type} (z : K) (a : PruneArgs) (st : PruneSt K) (i : Nat)
+    (h : PruneWf a st.lsub.size st.lusup.size st.xprune.size (a.segrep.getD i 0)) :
+    let irep := a.segrep.getD i 0
+    let lo := a.xlsub.getD irep 0
+    let hi := a.xlsub.getD (irep+1) 0
+    let o := pruneStep z a st i
+    (prunes a st irep = false → o = st) ∧
+    (prunes a st irep = true →
+      lo ≤ o.xprune.getD irep 0 ∧ o.xprune.getD irep 0 ≤ hi ∧
+      (∀ k, lo ≤ k → k < o.xprune.getD irep 0 → pivoted a.permR (o.lsub.getD k 0) = true) ∧
+      (∀ k, o.xprune.getD irep 0 ≤ k → k < hi → pivoted a.permR (o.lsub.getD k 0) = false) ∧
+      (∀ e, (∀ k, lo ≤ k → k < e → pivoted a.permR (st.lsub.getD k 0) = true) → ∀ k, k < e → o.lsub.getD k 0 = st.lsub.getD k 0) ∧
+      (∀ j, j ≠ irep → o.xprune.getD j 0 = st.xprune.getD j 0)) := by
+  intro irep lo hi o
+  show (_ → pruneStep z a st i = st) ∧ (_ → _ ≤ (pruneStep z a st i).xprune.getD irep 0 ∧ (pruneStep z a st i).xprune.getD irep 0 ≤ _ ∧
+    (∀ k, _ → k < (pruneStep z a st i).xprune.getD irep 0 → pivoted a.permR ((pruneStep z a st i).lsub.getD k 0) = true) ∧
+    (∀ k, (pruneStep z a st i).xprune.getD irep 0 ≤ k → _ → pivoted a.permR ((pruneStep z a st i).lsub.getD k 0) = false) ∧
+    (∀ e, _ → ∀ k, _ → (pruneStep z a st i).lsub.getD k 0 = _) ∧
+    (∀ j, _ → (pruneStep z a st i).xprune.getD j 0 = _))
+  rw [pruneStep_eq]
+  refine ⟨fun hp => by rw [hp]; rfl, fun hp => ?_⟩
+  rw [if_pos hp]
+  obtain ⟨hok, _, hx⟩ := pruneOne_ok z a st irep h
+  refine ⟨hok.lo_le, hok.le_hi, hok.front, hok.back, ?_, hx⟩
+  intro e he k hk
+  exact (partLoop_lead z a.permR (movnumOf a irep) (a.xlusup.getD irep 0) lo (hi - lo) lo hi st.lsub st.lusup e
+    (le_refl _) (le_refl _) h.mono h.inb (fun hm => by have := h.lu hm; omega) he k hk).1
+
+/-- **termination of the partition loop**: any larger fuel gives the same result, i.e. the `while (kmin <= kmax)`
+loop of dpruneL.c:117-149 ends through its own test for all inputs (each turn shrinks `kmax - kmin`). -/
+theorem pruneL_partition_terminates {K : Type} (z : K) (permR : Array Int) (movnum : Bool) (xlu xl lo hi g : Nat)
+    (ls : Array Nat) (lu : Array K) :
+    partLoop z permR movnum xlu xl (hi - lo + g) lo hi ls lu = partLoop z permR movnum xlu xl (hi - lo) lo hi ls lu :=
+  partLoop_fuel_add z permR movnum xlu xl (hi - lo) g lo hi ls lu (le_refl _)
+
+/-- the fold of `pruneStep` over any list of turns -/
+theorem pruneL_fold_perm {K : Type} (z : K) (a : PruneArgs) : ∀ (is : List Nat) (st : PruneSt K),
+    (∀ i ∈ is, PruneWf a st.lsub.size st.lusup.size st.xprune.size (a.segrep.getD i 0)) →
+    let o := is.foldl (pruneStep z a) st
+    o.lsub.size = st.lsub.size ∧ o.lusup.size = st.lusup.size ∧ o.xprune.size = st.xprune.size ∧
+    ∃ σ : Equiv.Perm ℕ, (∀ k, o.lsub.getD k 0 = st.lsub.getD (σ k) 0) ∧
+      (∀ k, (∀ i ∈ is, ¬ (a.xlsub.getD (a.segrep.getD i 0) 0 ≤ k ∧ k < a.xlsub.getD (a.segrep.getD i 0 + 1) 0)) → σ k = k) := by
+  intro is
+  induction is with
+  | nil => intro st _; exact ⟨rfl, rfl, rfl, Equiv.refl _, fun _ => rfl, fun _ _ => rfl⟩
+  | cons i is ih =>
+    intro st hwf
+    obtain ⟨z1, z2, z3, σ1, s1, _, s3, _⟩ := pruneL_step_perm z a st i (hwf i (List.mem_cons_self ..))
+    have := ih (pruneStep z a st i) (by rw [z1, z2, z3]; exact fun j hj => hwf j (List.mem_cons_of_mem _ hj))
+    obtain ⟨y1, y2, y3, σ2, t1, t2⟩ := this
+    refine ⟨by rw [List.foldl_cons, y1, z1], by rw [List.foldl_cons, y2, z2], by rw [List.foldl_cons, y3, z3], σ2.trans σ1, ?_, ?_⟩
+    · intro k; rw [List.foldl_cons, t1, s3]; rfl
+    · intro k hk
+      have h2 : σ2 k = k := t2 k (fun j hj => hk j (List.mem_cons_of_mem _ hj))
+      have h1 : σ1 k = k := by
+        apply s1
+        have := hk i (List.mem_cons_self ..)
+        omega
+      simp [Equiv.trans_apply, h2, h1]
+
+/-- **dpruneL.c, the whole call**: `lsub` afterwards is `lsub` before read through ONE permutation `σ` of the
+positions, and `σ` is the identity on every position that lies in no segment `[xlsub[irep], xlsub[irep+1])` of a
+listed representative: as a multiset `lsub` is unchanged and everything outside the processed segments is unchanged;
+all sizes are kept.  (That `σ` maps each segment to itself is `pruneL_step_perm`, turn by turn.) -/
+theorem pruneL_perm {K : Type} (z : K) (a : PruneArgs) (nseg : Nat) (st : PruneSt K)
+    (hwf : ∀ i < nseg, PruneWf a st.lsub.size st.lusup.size st.xprune.size (a.segrep.getD i 0)) :
+    let o := pruneL z a nseg st
+    o.lsub.size = st.lsub.size ∧ o.lusup.size = st.lusup.size ∧ o.xprune.size = st.xprune.size ∧
+    ∃ σ : Equiv.Perm ℕ, (∀ k, o.lsub.getD k 0 = st.lsub.getD (σ k) 0) ∧
+      (∀ k, (∀ i < nseg, ¬ (a.xlsub.getD (a.segrep.getD i 0) 0 ≤ k ∧ k < a.xlsub.getD (a.segrep.getD i 0 + 1) 0)) → σ k = k) := by
+  have := pruneL_fold_perm z a (List.range nseg) st (fun i hi => hwf i (List.mem_range.1 hi))
+  obtain ⟨a1, a2, a3, σ, s1, s2⟩ := this
+  exact ⟨a1, a2, a3, σ, s1, fun k hk => s2 k (fun i hi => hk i (List.mem_range.1 hi))⟩
+
+/-- **link to `prune_preserves_reach` / `luFactor_pruned_dfs` (Lemmas/Prune.lean)**.  `rowOf` is the FINAL pivot
+numbering; at the call the pivoted rows are exactly those numbered `≤ jcol`, and `pivrow` is number `jcol`.  When a
+turn partitions `irep`, the rows left in `[xlsub[irep], xprune[irep])`, in pivot numbering, are exactly
+`LU.pruneAdj p adj irep` for the cut `p irep = some jcol` of the full list `adj irep`, and `jcol ∈ adj irep` — the first
+half of `LU.PruneOkAdj` / `Symb.PruneOk` (`struct irep jcol`: the pair is symmetric on the L side, checked by the
+`do_prune` search).  What remains of `PruneOk` is the fill property of the pair, which `Symb.fillSym_colStruct` gives
+for the symbolic structure whenever `irep` is in the U-structure of `jcol` (`irep ∈ segrep`, `repfnz[irep] ≠ EMPTY`:
+the depth-first search's output, family `symb`/`lu` by correspondence). -/
+theorem pruneL_cut_pruneAdj {K : Type} (z : K) (a : PruneArgs) (st : PruneSt K) (i : Nat) (rowOf : Nat → Nat)
+    (h : PruneWf a st.lsub.size st.lusup.size st.xprune.size (a.segrep.getD i 0))
+    (hpiv : ∀ r, pivoted a.permR r = true ↔ rowOf r ≤ a.jcol) (hpr : rowOf a.pivrow = a.jcol)
+    (hp : prunes a st (a.segrep.getD i 0) = true) :
+    let irep := a.segrep.getD i 0
+    let lo := a.xlsub.getD irep 0
+    let hi := a.xlsub.getD (irep+1) 0
+    let o := pruneStep z a st i
+    let adj : Nat → List Nat := fun _ => (segList st.lsub lo (hi - lo)).map rowOf
+    let p : Nat → Option Nat := fun k => if k = irep then some a.jcol else none
+    a.jcol ∈ adj irep ∧
+    ∀ x, x ∈ (segList o.lsub lo (o.xprune.getD irep 0 - lo)).map rowOf ↔ x ∈ LU.pruneAdj p adj irep := by
+  intro irep lo hi o adj p
+  obtain ⟨_, hcut⟩ := pruneL_step_cut z a st i h
+  obtain ⟨c1', c2', c3', c4', _, _⟩ := hcut hp
+  obtain ⟨_, _, _, σ, s1', s2', s3', _⟩ := pruneL_step_perm z a st i h
+  have c1 : lo ≤ o.xprune.getD irep 0 := c1'
+  have c2 : o.xprune.getD irep 0 ≤ hi := c2'
+  have c3 : ∀ k, lo ≤ k → k < o.xprune.getD irep 0 → pivoted a.permR (o.lsub.getD k 0) = true := c3'
+  have c4 : ∀ k, o.xprune.getD irep 0 ≤ k → k < hi → pivoted a.permR (o.lsub.getD k 0) = false := c4'
+  have s1 : ∀ k, k < lo ∨ hi ≤ k → σ k = k := s1'
+  have s2 : ∀ k, lo ≤ k → k < hi → lo ≤ σ k ∧ σ k < hi := s2'
+  have s3 : ∀ k, o.lsub.getD k 0 = st.lsub.getD (σ k) 0 := s3'
+  clear c1' c2' c3' c4' s1' s2' s3'
+  have hmemseg : ∀ (ls : Array Nat) (n : Nat) (x : Nat), x ∈ (segList ls lo n).map rowOf ↔ ∃ k, lo ≤ k ∧ k < lo + n ∧ rowOf (ls.getD k 0) = x := by
+    intro ls n x
+    simp only [segList, List.mem_map, List.mem_range]
+    constructor
+    · rintro ⟨r, ⟨t, ht, rfl⟩, rfl⟩; exact ⟨lo + t, by omega, by omega, rfl⟩
+    · rintro ⟨k, h1, h2, rfl⟩; exact ⟨_, ⟨k - lo, by omega, rfl⟩, by rw [show lo + (k - lo) = k by omega]⟩
+  constructor
+  · -- the `do_prune` search found the pivot row
+    have hd : doPrune a st.lsub st.xprune irep = true := by
+      have : (eligible a irep && doPrune a st.lsub st.xprune irep) = true := hp
+      exact (Bool.and_eq_true _ _ ▸ this).2
+    unfold doPrune at hd
+    rw [Bool.and_eq_true, List.any_eq_true] at hd
+    obtain ⟨k, hk, hk2⟩ := hd.2
+    rw [List.mem_range'_1] at hk
+    show a.jcol ∈ (segList st.lsub lo (hi - lo)).map rowOf
+    rw [hmemseg]
+    refine ⟨k, hk.1, by have := hk.2; omega, ?_⟩
+    have : st.lsub.getD k 0 = a.pivrow := by simpa using hk2
+    rw [this, hpr]
+  · intro x
+    rw [LU.mem_pruneAdj]
+    show x ∈ (segList o.lsub lo (o.xprune.getD irep 0 - lo)).map rowOf ↔
+      x ∈ (segList st.lsub lo (hi - lo)).map rowOf ∧ ∀ c, (if irep = irep then some a.jcol else none) = some c → x ≤ c
+    rw [hmemseg, hmemseg, if_pos rfl]
+    constructor
+    · rintro ⟨k, h1, h2, rfl⟩
+      have hk2 : k < o.xprune.getD irep 0 := by omega
+      have hr := s2 k h1 (by omega)
+      refine ⟨⟨σ k, hr.1, by omega, by rw [← s3]⟩, ?_⟩
+      intro c hc; cases hc
+      exact (hpiv _).1 (c3 k h1 hk2)
+    · rintro ⟨⟨k', h1, h2, rfl⟩, hle⟩
+      have hle' := hle _ rfl
+      have hk'hi : k' < hi := by omega
+      -- k' = σ k with k in the segment
+      have hin : lo ≤ σ.symm k' ∧ σ.symm k' < hi := by
+        by_contra hcon
+        have : σ (σ.symm k') = σ.symm k' := s1 _ (by omega)
+        rw [Equiv.apply_symm_apply] at this
+        rw [← this] at hcon; exact hcon ⟨h1, hk'hi⟩
+      refine ⟨σ.symm k', hin.1, ?_, by rw [s3, Equiv.apply_symm_apply]⟩
+      have hpv : pivoted a.permR (o.lsub.getD (σ.symm k') 0) = true := by
+        rw [s3, Equiv.apply_symm_apply]; exact (hpiv _).2 hle'
+      by_contra hcon
+      have := c4 (σ.symm k') (by omega) hin.2
+      rw [hpv] at this; exact Bool.noConfusion this
+
+/-- a singleton supernode (column 0) whose list `[3,0,4,5,2]` is partitioned at column 3: rows 3,4,2 are pivoted -/
+def exPruneArgs : PruneArgs := ⟨3, #[-1,2,1,0,3,-1], 4, #[0], #[0,-1,-1,-1], #[0,1,2,3,4], #[0,1,2,3,3], #[0,5,6,7,8], #[0,5,6,7,8]⟩
+def exPruneSt : PruneSt Int := ⟨#[3,0,4,5,2, 2, 1, 4], #[10,11,12,13,14, 15, 16, 17], #[5,6,7,8]⟩
+example : PruneWf exPruneArgs 8 8 4 0 := by decide
+example : prunes exPruneArgs exPruneSt 0 = true := by decide
+example : (pruneL (0 : Int) exPruneArgs 1 exPruneSt).lsub.toList = [3,2,4,5,0, 2, 1, 4] ∧
+    (pruneL (0 : Int) exPruneArgs 1 exPruneSt).lusup.toList = [10,14,12,13,11, 15, 16, 17] ∧
+    (pruneL (0 : Int) exPruneArgs 1 exPruneSt).xprune.toList = [3,6,7,8] := by decide
+
+/-- **dcopy_to_ucol.c**: with `R = ucolAllRows a` (the rows `lsub[isub ..]` of the kept segments — other supernode
+than `jcol`'s, `repfnz ≠ EMPTY` — concatenated in the order `segrep[nseg-1], …, segrep[0]`) and `nextu0 = xusub[jcol]`:
+`usub[nextu0 + t] = perm_r[R[t]]`, `ucol[nextu0 + t]` = the value `dense` held for row `R[t]` (zero if that row was
+gathered before: never when the segments are disjoint, `R.Nodup`), `dense` is zero on `R` afterwards and unchanged
+elsewhere, `usub`/`ucol` are unchanged outside `[nextu0, nextu0 + |R|)`, `xusub[jcol+1] = nextu0 + |R|` and no other
+`xusub` entry changes.  With `perm_r` injective on `R` the U column has no repeated row. -/
+theorem copyToUcol_spec {K : Type} (z : K) (a : UcolArgs) (xusub : Array Nat) (usub : Array Int) (ucol dense : Array K)
+    (h : UcolWf a xusub usub.size ucol.size dense.size) :
+    let R := ucolAllRows a
+    let nextu0 := xusub.getD a.jcol 0
+    let o := copyToUcol z a xusub usub ucol dense
+    o.1.nextu = nextu0 + R.length ∧ o.2.getD (a.jcol+1) 0 = nextu0 + R.length ∧
+    (∀ k, k ≠ a.jcol + 1 → o.2.getD k 0 = xusub.getD k 0) ∧
+    (∀ t, t < R.length → o.1.usub.getD (nextu0 + t) 0 = a.permR.getD (R.getD t 0) EMPTY) ∧
+    (∀ t, t < R.length → o.1.ucol.getD (nextu0 + t) z = if R.getD t 0 ∈ R.take t then z else dense.getD (R.getD t 0) z) ∧
+    (R.Nodup → ∀ t, t < R.length → o.1.ucol.getD (nextu0 + t) z = dense.getD (R.getD t 0) z) ∧
+    (∀ r, o.1.dense.getD r z = if r ∈ R then z else dense.getD r z) ∧
+    (∀ k, k < nextu0 ∨ nextu0 + R.length ≤ k → o.1.usub.getD k 0 = usub.getD k 0 ∧ o.1.ucol.getD k z = ucol.getD k z) ∧
+    o.1.usub.size = usub.size ∧ o.1.ucol.size = ucol.size ∧ o.1.dense.size = dense.size ∧
+    (R.Nodup → (∀ r ∈ R, ∀ r' ∈ R, a.permR.getD r EMPTY = a.permR.getD r' EMPTY → r = r') →
+      ((List.range R.length).map (fun t => o.1.usub.getD (nextu0 + t) 0)).Nodup) ∧
+    (∀ bound : Int, (∀ r ∈ R, 0 ≤ a.permR.getD r EMPTY ∧ a.permR.getD r EMPTY < bound) →
+      ∀ t, t < R.length → 0 ≤ o.1.usub.getD (nextu0 + t) 0 ∧ o.1.usub.getD (nextu0 + t) 0 < bound) := by
+  intro R nextu0 o
+  obtain ⟨inv, x1, x2⟩ := copyToUcol_inv z a xusub usub ucol dense h
+  have getD_mem : ∀ t, t < R.length → R.getD t 0 ∈ R := by
+    intro t ht; simp [List.getD_eq_getElem?_getD, ht]
+  refine ⟨inv.nextu, x1, x2, inv.usub, inv.ucol, ?_, inv.dense, inv.frame, inv.szU, inv.szC, inv.szD, ?_, ?_⟩
+  · intro hnd t ht
+    rw [inv.ucol t ht, if_neg]
+    intro hmem
+    obtain ⟨s, hs, hst⟩ := List.getElem_of_mem hmem
+    have hs' : s < t := by have := hs; simp only [List.length_take] at this; omega
+    have ht' : t < (ucolAllRows a).length := ht
+    have : (ucolAllRows a)[s]'(by omega) = (ucolAllRows a)[t]'ht' := by
+      rw [List.getElem_take] at hst; rw [hst]; simp [List.getD_eq_getElem?_getD, List.getElem?_eq_getElem ht']
+    have := (List.Nodup.getElem_inj_iff hnd).1 this
+    omega
+  · intro hnd hinj
+    rw [List.nodup_iff_injective_get]
+    intro ⟨i, hi⟩ ⟨j, hj⟩ hij
+    simp only [List.length_map, List.length_range] at hi hj
+    simp only [List.get_eq_getElem, List.getElem_map, List.getElem_range] at hij
+    rw [inv.usub i hi, inv.usub j hj] at hij
+    have := hinj _ (getD_mem i hi) _ (getD_mem j hj) hij
+    simp only [List.getD_eq_getElem?_getD, List.getElem?_eq_getElem hi, List.getElem?_eq_getElem hj, Option.getD_some] at this
+    have := (List.Nodup.getElem_inj_iff hnd).1 this
+    exact Fin.ext this
+  · intro bound hb t ht
+    rw [inv.usub t ht]; exact hb _ (getD_mem t ht)
+
+/-- two segments (supernode 1 = columns 1..2, fragment of supernode 0), column 4 in its own supernode -/
+def exUcolArgs : UcolArgs := ⟨4, 3, #[0, 3, 2], #[0, -1, 1, 3, -1], #[1, 3, 0, 2, -1, -1], #[0, 1, 3, 4, 5], #[0, 1, 1, 2, 3],
+  #[2, 5, 0, 3, 4, 1, 4], #[0, 2, 5, 5, 7]⟩
+example : UcolWf exUcolArgs #[0, 0, 1, 1, 2, 77] 7 7 6 := by decide
+example : ucolAllRows exUcolArgs = [0, 3, 1, 2] := by decide
+example : (copyToUcol (0 : Int) exUcolArgs #[0, 0, 1, 1, 2, 77] #[9, 9, 50, 51, 52, 53, 54] #[7, 7, 60, 61, 62, 63, 64] #[11, 12, 13, 14, 15, 16]).1.usub.toList
+      = [9, 9, 1, 2, 3, 0, 54] ∧
+    (copyToUcol (0 : Int) exUcolArgs #[0, 0, 1, 1, 2, 77] #[9, 9, 50, 51, 52, 53, 54] #[7, 7, 60, 61, 62, 63, 64] #[11, 12, 13, 14, 15, 16]).1.ucol.toList
+      = [7, 7, 11, 14, 12, 13, 64] ∧
+    (copyToUcol (0 : Int) exUcolArgs #[0, 0, 1, 1, 2, 77] #[9, 9, 50, 51, 52, 53, 54] #[7, 7, 60, 61, 62, 63, 64] #[11, 12, 13, 14, 15, 16]).1.dense.toList
+      = [0, 0, 0, 0, 15, 16] ∧
+    (copyToUcol (0 : Int) exUcolArgs #[0, 0, 1, 1, 2, 77] #[9, 9, 50, 51, 52, 53, 54] #[7, 7, 60, 61, 62, 63, 64] #[11, 12, 13, 14, 15, 16]).2.toList
+      = [0, 0, 1, 1, 2, 6] := by decide
+
+/-- **dsnode_dfs.c, supernode bookkeeping**: `supno[jcol..kcol+1]` all receive the new supernode number
+`nsuper = supno[jcol] + 1`, `xsup[nsuper+1] = kcol+1`, nothing else in `supno`/`xsup` changes. -/
+theorem snodeDfs_supno (jcol kcol : Nat) (asub xaB xaE xprune : Array Nat) (marker : Array Int)
+    (xsup : Array Nat) (supno : Array Int) (lsub xlsub : Array Nat) (hle : jcol ≤ kcol) :
+    let o := snodeDfs jcol kcol asub xaB xaE xprune marker xsup supno lsub xlsub
+    let nsuper : Int := supno.getD jcol 0 + 1
+    (∀ i, jcol ≤ i → i ≤ kcol + 1 → i < supno.size → o.supno.getD i 0 = nsuper) ∧
+    (∀ i, i < jcol ∨ kcol + 1 < i → o.supno.getD i 0 = supno.getD i 0) ∧
+    ((nsuper + 1).toNat < xsup.size → o.xsup.getD (nsuper + 1).toNat 0 = kcol + 1) ∧
+    (∀ s, s ≠ (nsuper + 1).toNat → o.xsup.getD s 0 = xsup.getD s 0) := by
+  intro o nsuper
+  obtain ⟨_, _, _, _, e5, e6⟩ := snodeDfs_unfold jcol kcol asub xaB xaE xprune marker xsup supno lsub xlsub
+  have hs : (snodeLoop jcol kcol asub xaB xaE marker supno lsub xlsub).supno =
+      (List.range' jcol (kcol + 1 - jcol)).foldl (fun s i => s.setIfInBounds i nsuper) (supno.setIfInBounds jcol nsuper) :=
+    snodeCols_fold_supno kcol nsuper asub xaB xaE _ _
+  have e5' : o.supno = _ := e5
+  have e6' : o.xsup = _ := e6
+  refine ⟨?_, ?_, ?_, ?_⟩
+  · intro i h1 h2 h3
+    rw [e5', getD_setIfInBounds]
+    by_cases hk : i = kcol + 1
+    · subst hk; rw [if_pos ⟨rfl, by rw [hs, foldl_setRange_size]; simpa using h3⟩]
+    · rw [if_neg (fun hh => hk hh.1.symm), hs, foldl_setRange_getD, if_pos ⟨h1, by omega, by simpa using h3⟩]
+  · intro i hi
+    rw [e5', getD_setIfInBounds, if_neg (by omega), hs, foldl_setRange_getD, if_neg (by omega), getD_setIfInBounds, if_neg (by omega)]
+  · intro hb; rw [e6', getD_setIfInBounds, if_pos ⟨rfl, hb⟩]
+  · intro s hs'; rw [e6', getD_setIfInBounds, if_neg (fun hh => hs' hh.1.symm)]
+
+/-- the list of column `c` is cut at `xprune[c]`: pivoted rows before, unpivoted rows from there on -/
+def CutAt {K : Type} (a : PruneArgs) (st : PruneSt K) (c : Nat) : Prop :=
+  a.xlsub.getD c 0 ≤ st.xprune.getD c 0 ∧ st.xprune.getD c 0 ≤ a.xlsub.getD (c+1) 0 ∧
+  (∀ k, a.xlsub.getD c 0 ≤ k → k < st.xprune.getD c 0 → pivoted a.permR (st.lsub.getD k 0) = true) ∧
+  (∀ k, st.xprune.getD c 0 ≤ k → k < a.xlsub.getD (c+1) 0 → pivoted a.permR (st.lsub.getD k 0) = false)
+
+/-- a cut made earlier survives every later turn (the segments of different columns are disjoint) -/
+theorem cutAt_step {K : Type} (z : K) (a : PruneArgs) (st : PruneSt K) (i c : Nat)
+    (h : PruneWf a st.lsub.size st.lusup.size st.xprune.size (a.segrep.getD i 0))
+    (hmono : ∀ i j, i ≤ j → j < a.xlsub.size → a.xlsub.getD i 0 ≤ a.xlsub.getD j 0)
+    (hi : a.segrep.getD i 0 + 1 < a.xlsub.size) (hc : c + 1 < a.xlsub.size)
+    (hcut : CutAt a st c) : CutAt a (pruneStep z a st i) c := by
+  obtain ⟨n1, n2⟩ := pruneL_step_cut z a st i h
+  by_cases hp : prunes a st (a.segrep.getD i 0) = true
+  · obtain ⟨c1, c2, c3, c4, _, c6⟩ := n2 hp
+    by_cases hci : c = a.segrep.getD i 0
+    · subst hci; exact ⟨c1, c2, c3, c4⟩
+    · obtain ⟨_, _, _, σ, s1, _, s3, _⟩ := pruneL_step_perm z a st i h
+      obtain ⟨d1, d2, d3, d4⟩ := hcut
+      have hx := c6 c hci
+      have hfix : ∀ k, a.xlsub.getD c 0 ≤ k → k < a.xlsub.getD (c+1) 0 → (pruneStep z a st i).lsub.getD k 0 = st.lsub.getD k 0 := by
+        intro k k1 k2
+        rw [s3, s1 k]
+        rcases Nat.lt_or_gt_of_ne hci with hlt | hgt
+        · have := hmono (c+1) (a.segrep.getD i 0) (by omega) (by omega); left; omega
+        · have := hmono (a.segrep.getD i 0 + 1) c (by omega) (by omega); right; omega
+      refine ⟨by rw [hx]; exact d1, by rw [hx]; exact d2, ?_, ?_⟩
+      · intro k k1 k2; rw [hx] at k2; rw [hfix k k1 (by omega)]; exact d3 k k1 k2
+      · intro k k1 k2; rw [hx] at k1; rw [hfix k (by omega) k2]; exact d4 k k1 k2
+  · have hp' : prunes a st (a.segrep.getD i 0) = false := by simpa using hp
+    rw [n1 hp']; exact hcut
+
+theorem cutAt_fold {K : Type} (z : K) (a : PruneArgs) (c : Nat)
+    (hmono : ∀ i j, i ≤ j → j < a.xlsub.size → a.xlsub.getD i 0 ≤ a.xlsub.getD j 0) (hc : c + 1 < a.xlsub.size) :
+    ∀ (is : List Nat) (st : PruneSt K),
+      (∀ i ∈ is, PruneWf a st.lsub.size st.lusup.size st.xprune.size (a.segrep.getD i 0) ∧ a.segrep.getD i 0 + 1 < a.xlsub.size) →
+      CutAt a st c → CutAt a (is.foldl (pruneStep z a) st) c := by
+  intro is
+  induction is with
+  | nil => intro st _ h; exact h
+  | cons i is ih =>
+    intro st hwf hcut
+    rw [List.foldl_cons]
+    obtain ⟨z1, z2, z3, _⟩ := pruneL_step_perm z a st i (hwf i (List.mem_cons_self ..)).1
+    apply ih
+    · intro j hj; rw [z1, z2, z3]; exact hwf j (List.mem_cons_of_mem _ hj)
+    · exact cutAt_step z a st i c (hwf i (List.mem_cons_self ..)).1 hmono (hwf i (List.mem_cons_self ..)).2 hc hcut
+
+/-- **dpruneL.c, the whole call, the cut**: with `xlsub` monotone (so the lists of different columns are disjoint),
+(1) every cut that holds before the call holds after it, and (2) if turn `i` partitions its representative (the tests
+of dpruneL.c:82-105 pass in the state reached after turns `0..i-1`), then AFTER THE CALL the list of `segrep[i]` is cut
+at `xprune[segrep[i]]`: every entry before it is a pivoted row, every entry from it on is not. -/
+theorem pruneL_cut {K : Type} (z : K) (a : PruneArgs) (nseg : Nat) (st : PruneSt K)
+    (hwf : ∀ i < nseg, PruneWf a st.lsub.size st.lusup.size st.xprune.size (a.segrep.getD i 0) ∧ a.segrep.getD i 0 + 1 < a.xlsub.size)
+    (hmono : ∀ i j, i ≤ j → j < a.xlsub.size → a.xlsub.getD i 0 ≤ a.xlsub.getD j 0) :
+    (∀ c, c + 1 < a.xlsub.size → CutAt a st c → CutAt a (pruneL z a nseg st) c) ∧
+    (∀ i, i < nseg → prunes a ((List.range i).foldl (pruneStep z a) st) (a.segrep.getD i 0) = true →
+      CutAt a (pruneL z a nseg st) (a.segrep.getD i 0)) := by
+  constructor
+  · intro c hc hcut
+    exact cutAt_fold z a c hmono hc (List.range nseg) st (fun i hi => hwf i (List.mem_range.1 hi)) hcut
+  · intro i hi hp
+    have hsplit : List.range nseg = List.range i ++ (i :: List.range' (i+1) (nseg - (i+1))) := by
+      rw [List.range_eq_range', List.range_eq_range', ← List.range'_succ]
+      have := @List.range'_append_1 0 i (nseg - (i+1) + 1)
+      rw [Nat.zero_add] at this
+      rw [this]; congr 1; omega
+    unfold pruneL
+    rw [hsplit, List.foldl_append, List.foldl_cons]
+    obtain ⟨y1, y2, y3, _⟩ := pruneL_fold_perm z a (List.range i) st (fun j hj => (hwf j (by have := List.mem_range.1 hj; omega)).1)
+    have hwfi : PruneWf a ((List.range i).foldl (pruneStep z a) st).lsub.size ((List.range i).foldl (pruneStep z a) st).lusup.size
+        ((List.range i).foldl (pruneStep z a) st).xprune.size (a.segrep.getD i 0) := by rw [y1, y2, y3]; exact (hwf i hi).1
+    obtain ⟨_, n2⟩ := pruneL_step_cut z a _ i hwfi
+    obtain ⟨c1, c2, c3, c4, _, _⟩ := n2 hp
+    obtain ⟨w1, w2, w3, _⟩ := pruneL_step_perm z a _ i hwfi
+    apply cutAt_fold z a _ hmono (hwf i hi).2
+    · intro j hj
+      rw [w1, w2, w3, y1, y2, y3]
+      exact hwf j (by have := (List.mem_range'_1.1 hj).2; omega)
+    · exact ⟨c1, c2, c3, c4⟩
+
+/-- the hypotheses of `pruneL_cut` on the example state: monotone `xlsub`, turn 0 partitions column 0 -/
+example : (∀ i < 1, PruneWf exPruneArgs exPruneSt.lsub.size exPruneSt.lusup.size exPruneSt.xprune.size (exPruneArgs.segrep.getD i 0) ∧
+    exPruneArgs.segrep.getD i 0 + 1 < exPruneArgs.xlsub.size) ∧
+    (∀ i < 5, ∀ j < 5, i ≤ j → exPruneArgs.xlsub.getD i 0 ≤ exPruneArgs.xlsub.getD j 0) := by decide
+
+def kfnzOf (a : UcolArgs) (krep : Nat) : Nat := (a.repfnz.getD krep EMPTY).toNat
+def fsupcOf (a : UcolArgs) (krep : Nat) : Nat := a.xsup.getD (a.supno.getD krep 0).toNat 0
+
+/-- what `copyToUcol` needs of the L structure and of the search (decidable): for every kept segment `kfnz..krep`,
+`kfnz` lies in the supernode of `krep`, the supernode's list starts with its own pivot rows in column order
+(`perm_r[lsub[xlsub[fsupc] + (c - fsupc)]] = c`: what `[sdcz]pivotL` maintains), and `krep` is a column before the
+supernode of `jcol` -/
+def UcolLead (a : UcolArgs) : Prop :=
+  ∀ ksub ∈ List.range a.nseg, ucolKeeps a (a.segrep.getD (a.nseg - 1 - ksub) 0) = true →
+    fsupcOf a (a.segrep.getD (a.nseg - 1 - ksub) 0) ≤ kfnzOf a (a.segrep.getD (a.nseg - 1 - ksub) 0) ∧
+    kfnzOf a (a.segrep.getD (a.nseg - 1 - ksub) 0) ≤ a.segrep.getD (a.nseg - 1 - ksub) 0 ∧
+    a.segrep.getD (a.nseg - 1 - ksub) 0 < a.xsup.getD (a.supno.getD a.jcol 0).toNat 0 ∧
+    ∀ c ∈ List.range' (kfnzOf a (a.segrep.getD (a.nseg - 1 - ksub) 0))
+        (a.segrep.getD (a.nseg - 1 - ksub) 0 + 1 - kfnzOf a (a.segrep.getD (a.nseg - 1 - ksub) 0)),
+      a.permR.getD (a.lsub.getD (a.xlsub.getD (fsupcOf a (a.segrep.getD (a.nseg - 1 - ksub) 0)) 0 +
+        (c - fsupcOf a (a.segrep.getD (a.nseg - 1 - ksub) 0))) 0) EMPTY = (c : Int)
+
+instance (a : UcolArgs) : Decidable (UcolLead a) := by unfold UcolLead; infer_instance
+
+/-- **the C03 clause "U holds only rows strictly above each column's supernode", at the array level**: under
+`UcolLead` every row index written to `usub` for column `jcol` is a column number `c` with
+`0 ≤ c < xsup[supno[jcol]]` -/
+theorem copyToUcol_above {K : Type} (z : K) (a : UcolArgs) (xusub : Array Nat) (usub : Array Int) (ucol dense : Array K)
+    (h : UcolWf a xusub usub.size ucol.size dense.size) (hl : UcolLead a) :
+    ∀ t, t < (ucolAllRows a).length →
+      0 ≤ (copyToUcol z a xusub usub ucol dense).1.usub.getD (xusub.getD a.jcol 0 + t) 0 ∧
+      (copyToUcol z a xusub usub ucol dense).1.usub.getD (xusub.getD a.jcol 0 + t) 0 < (a.xsup.getD (a.supno.getD a.jcol 0).toNat 0 : Int) := by
+  have hs := copyToUcol_spec z a xusub usub ucol dense h
+  obtain ⟨_, _, _, _, _, _, _, _, _, _, _, _, hb⟩ := hs
+  apply hb
+  intro r hr
+  unfold ucolAllRows at hr
+  rw [List.mem_flatMap] at hr
+  obtain ⟨ksub, hk, hr⟩ := hr
+  unfold ucolRows at hr
+  by_cases hkeep : ucolKeeps a (a.segrep.getD (a.nseg - 1 - ksub) 0) = true
+  · rw [if_pos hkeep] at hr
+    obtain ⟨g1, g0, g2, g3⟩ := hl ksub hk hkeep
+    simp only [segList, List.mem_map, List.mem_range] at hr
+    obtain ⟨t, ht, rfl⟩ := hr
+    have := g3 (kfnzOf a (a.segrep.getD (a.nseg - 1 - ksub) 0) + t) (by rw [List.mem_range'_1]; unfold kfnzOf at *; omega)
+    have e : a.xlsub.getD (fsupcOf a (a.segrep.getD (a.nseg - 1 - ksub) 0)) 0 +
+        (kfnzOf a (a.segrep.getD (a.nseg - 1 - ksub) 0) + t - fsupcOf a (a.segrep.getD (a.nseg - 1 - ksub) 0)) =
+        a.xlsub.getD (a.xsup.getD (a.supno.getD (a.segrep.getD (a.nseg - 1 - ksub) 0) 0).toNat 0) 0 +
+          (a.repfnz.getD (a.segrep.getD (a.nseg - 1 - ksub) 0) EMPTY).toNat -
+          a.xsup.getD (a.supno.getD (a.segrep.getD (a.nseg - 1 - ksub) 0) 0).toNat 0 + t := by
+      unfold kfnzOf fsupcOf at *; omega
+    rw [e] at this
+    rw [this]
+    unfold kfnzOf at *
+    constructor
+    · exact Int.natCast_nonneg _
+    · have : (a.repfnz.getD (a.segrep.getD (a.nseg - 1 - ksub) 0) EMPTY).toNat + t < a.xsup.getD (a.supno.getD a.jcol 0).toNat 0 := by omega
+      exact_mod_cast this
+  · rw [if_neg hkeep] at hr; simp at hr
+
+example : UcolLead exUcolArgs := by decide
+
+theorem pruneL_fold_segperm {K : Type} (z : K) (a : PruneArgs)
+    (hmono : ∀ i j, i ≤ j → j < a.xlsub.size → a.xlsub.getD i 0 ≤ a.xlsub.getD j 0) : ∀ (is : List Nat) (st : PruneSt K),
+    (∀ i ∈ is, PruneWf a st.lsub.size st.lusup.size st.xprune.size (a.segrep.getD i 0) ∧ a.segrep.getD i 0 + 1 < a.xlsub.size) →
+    ∃ σ : Equiv.Perm ℕ, (∀ k, (is.foldl (pruneStep z a) st).lsub.getD k 0 = st.lsub.getD (σ k) 0) ∧
+      (∀ c, c + 1 < a.xlsub.size → ∀ k, a.xlsub.getD c 0 ≤ k → k < a.xlsub.getD (c+1) 0 →
+        a.xlsub.getD c 0 ≤ σ k ∧ σ k < a.xlsub.getD (c+1) 0) := by
+  intro is
+  induction is with
+  | nil => intro st _; exact ⟨Equiv.refl _, fun _ => rfl, fun _ _ k h1 h2 => ⟨h1, h2⟩⟩
+  | cons i is ih =>
+    intro st hwf
+    obtain ⟨z1, z2, z3, σ1, s1, s2, s3, _⟩ := pruneL_step_perm z a st i (hwf i (List.mem_cons_self ..)).1
+    obtain ⟨σ2, t1, t2⟩ := ih (pruneStep z a st i) (by rw [z1, z2, z3]; exact fun j hj => hwf j (List.mem_cons_of_mem _ hj))
+    have hi := (hwf i (List.mem_cons_self ..)).2
+    refine ⟨σ2.trans σ1, fun k => by rw [List.foldl_cons, t1, s3]; rfl, ?_⟩
+    intro c hc k k1 k2
+    have h2 := t2 c hc k k1 k2
+    simp only [Equiv.trans_apply]
+    by_cases hci : c = a.segrep.getD i 0
+    · subst hci; exact s2 _ h2.1 h2.2
+    · have : σ1 (σ2 k) = σ2 k := by
+        apply s1
+        rcases Nat.lt_or_gt_of_ne hci with hlt | hgt
+        · have := hmono (c+1) (a.segrep.getD i 0) (by omega) (by omega); left; omega
+        · have := hmono (a.segrep.getD i 0 + 1) c (by omega) (by omega); right; omega
+      rw [this]; exact h2
+
+/-- **dpruneL.c, the whole call, per list**: with `xlsub` monotone the permutation of `pruneL_perm` maps the list
+`[xlsub[c], xlsub[c+1])` of EVERY column `c` to itself — after the call each column's list is a permutation of what it
+was before the call. -/
+theorem pruneL_segperm {K : Type} (z : K) (a : PruneArgs) (nseg : Nat) (st : PruneSt K)
+    (hwf : ∀ i < nseg, PruneWf a st.lsub.size st.lusup.size st.xprune.size (a.segrep.getD i 0) ∧ a.segrep.getD i 0 + 1 < a.xlsub.size)
+    (hmono : ∀ i j, i ≤ j → j < a.xlsub.size → a.xlsub.getD i 0 ≤ a.xlsub.getD j 0) :
+    ∃ σ : Equiv.Perm ℕ, (∀ k, (pruneL z a nseg st).lsub.getD k 0 = st.lsub.getD (σ k) 0) ∧
+      (∀ c, c + 1 < a.xlsub.size → ∀ k, a.xlsub.getD c 0 ≤ k → k < a.xlsub.getD (c+1) 0 →
+        a.xlsub.getD c 0 ≤ σ k ∧ σ k < a.xlsub.getD (c+1) 0) :=
+  pruneL_fold_segperm z a hmono (List.range nseg) st (fun i hi => hwf i (List.mem_range.1 hi))
+end Slu.SymbArr
